@@ -192,6 +192,7 @@ class Ctx:
         self.monitor_hits: list[dict] = []
         self.notes: list[str] = []
         self.driver_ok = DRIVER.exists()
+        self.driver_path = DRIVER
         self.exhaustive = False
         self.extra: dict[str, Any] = {}
         self.budget_scale = float(os.environ.get("VERIF_BUDGET", "1"))
@@ -227,7 +228,7 @@ class Ctx:
         for l in lines:
             if "\n" in l:
                 raise Infra("newline inside a driver line")
-        p = subprocess.run([str(DRIVER)], input="\n".join(lines) + "\n", capture_output=True, text=True, timeout=timeout)
+        p = subprocess.run([str(self.driver_path)], input="\n".join(lines) + "\n", capture_output=True, text=True, timeout=timeout)
         if p.returncode != 0:
             raise Infra(f"model driver failed rc={p.returncode}: {p.stderr[:2000]}")
         out = p.stdout.split("\n")
@@ -304,6 +305,10 @@ def run_check(prop: str, tier: str, seed: int, replay: str | None = None) -> int
             # the driver only depends on Model/*; if it fails it is our bug or the toolchain
             build_log += log_drv
         ctx.driver_ok = DRIVER.exists() and ok_drv
+        if ctx.driver_ok:
+            # private copy: other people's builds replace the binary while this check runs
+            ctx.driver_path = Path(tempfile.mkdtemp(prefix="stabdrv-", dir="/dev/shm" if Path("/dev/shm").is_dir() else None)) / "stabdrv"
+            shutil.copy2(DRIVER, ctx.driver_path)
         ok, log = lake_build([f"Stab.Props.{prop}"])
         build_log += log
         if not ok:
@@ -422,6 +427,8 @@ def run_check(prop: str, tier: str, seed: int, replay: str | None = None) -> int
     (VERIF / "evidence").mkdir(exist_ok=True)
     (VERIF / "evidence" / f"{prop}.json").write_text(json.dumps(evidence, indent=1, default=str))
 
+    if ctx.driver_path != DRIVER:
+        shutil.rmtree(ctx.driver_path.parent, ignore_errors=True)
     for l in out_lines:
         print(l)
     status = {0: "HELD", 1: "VIOLATION", 2: "INFRA-ERROR"}[rc]
